@@ -23,6 +23,10 @@ try:
     # rewrite the author's worktree path to ours
     demo_cmd = re.sub(r'/tmp/seedwt-C\d+[a-z]?', wt, demo_cmd)
     demo_cmd = demo_cmd.replace('$G ', G + ' ').replace(' go test', ' ' + G + ' test')
+    # some authors chain 'git apply' / 'cp demo' into the command: the script does those steps itself
+    segs = [x.strip() for x in demo_cmd.split('&&')]
+    segs = [x for x in segs if 'git apply' not in x and not x.startswith('cp ') and not x.startswith('git checkout') and 'git stash' not in x]
+    demo_cmd = ' && '.join(segs)
     if demo_cmd.startswith('go test'):
         demo_cmd = G + demo_cmd[2:]
     def place():
